@@ -35,6 +35,14 @@ func init() {
 		const dir = "proxy/tcp"
 		c := &c10{x: x, dir: dir}
 
+		// ---- the translated functions (xlate.go): the model regenerated from the source ----
+		xlateEmit(x, dir+"/tls_clienthello.go", []xlSpec{
+			{"", "clientHelloBufferSize", "XBufSize", nil},
+			// fuel of the two loops: the extension loop consumes >= 4 bytes of `data` per round, the name loop
+			// >= 3 bytes of `d`; that len+1 rounds suffice is a theorem (no "fuel" panic), not an assumption
+			{"clientHelloMsg", "unmarshal", "XUnmarshal", []string{"s.data.length + 1", "s.d.length + 1"}},
+		})
+
 		// ---- clientHelloBufferSize ----
 		if fd := x.funcDecl(dir, "", "clientHelloBufferSize"); fd != nil {
 			ev := c.events(fd, "")
